@@ -462,6 +462,17 @@ def r10_5(ctx, counts, spec) -> RuleResult:
         res.instances.append(f'{f.key} ({",".join(sorted(syms))[:60]}): cast calls='
                              f'{len(calls_cast)} (helpers {sorted(helpers)}) direct '
                              f'constructions in the constructor role={len(direct)}')
+        pre = [c for c in calls_cast if dotted(c.func) in ('self.cast', 'self_.cast') and c.args
+               and isinstance(c.args[0], ast.Call)
+               and dotted(c.args[0].func) in ('str', 'int', 'float', 'bool', 'repr', 'Decimal',
+                                              'decimal.Decimal')]
+        if pre:
+            res.fail(finding('R10.5', f, pre[0], f'{sorted(syms)[0]} pre-converts the argument',
+                             f'evaluate of constructor {sorted(syms)} passes '
+                             f'`{stmt_text(pre[0].args[0])[:40]}` to self.cast: the Python '
+                             f'conversion replaces the XPath lexical form (str(True) is \'True\', '
+                             f'str(Decimal(\'1.50\')) is \'1.50\') so xs:T(E) and `E cast as T` '
+                             f'disagree'))
         if calls_cast and not direct:
             res.ok()
         else:
